@@ -117,6 +117,18 @@ def project_accounting(case, solution):
     return {'id': case['id'], 'jobs': jobs, 'vehicles': vehicles, 'tours': tours, 'unassigned': un}
 
 
+def accounting_qualifier(inv, case, rec):
+    """the strata of qualifier() that can be told from an accounting record"""
+    customer = ('pickup', 'delivery', 'service', 'replacement')
+    if inv == 'TourServesJob':
+        idle = [t for t in rec['tours'] if not any(a['type'] in customer for a in t['acts'])]
+        if idle and all(any(a['type'] == 'break' for a in t['acts']) and all(a['type'] in ('departure', 'arrival', 'break') for a in t['acts']) for t in idle):
+            return 'break-only-tour'
+        if idle and all(all(a['type'] in ('departure', 'arrival') for a in t['acts']) for t in idle) and any(f in case.get('features', []) for f in ('reloads', 'resources')):
+            return 'empty-tour-in-reload-problem'
+    return 'general'
+
+
 def clustering_pass(pid, tier, cases, rnd, verdict):
     """C02 only: problems with vicinity clustering; the accounting of jobs is judged by JudgeAccounting.tla."""
     picked = [c for c in cases if rnd.random() < (0.12 if tier == 'quick' else 0.15)]
@@ -155,7 +167,10 @@ def clustering_pass(pid, tier, cases, rnd, verdict):
     for name, _, rid in jr.fails:
         if rid.startswith('canary:'):
             continue
-        verdict.add('%s/Clustered%s/general' % (pid, name), 'record %s (vicinity clustering) violates %s' % (rid, name), {'case': by_id[rid], 'solution': out[rid]['solution'], 'invariant': name})
+        q = accounting_qualifier(name, by_id[rid], next(r for r in recs if r['id'] == rid))
+        # the recorded defects of conditional jobs do not depend on clustering: same key as in the other passes
+        key = '%s/%s/%s' % (pid, name, q) if q != 'general' else '%s/Clustered%s/general' % (pid, name)
+        verdict.add(key, 'record %s (vicinity clustering) violates %s' % (rid, name), {'case': by_id[rid], 'solution': out[rid]['solution'], 'invariant': name})
     return {'clustering_cases': len(ccases), 'judged': len(recs), 'solutions_with_clustered_stops': clustered, 'status': dict(collections.Counter(o['status'] for o in out.values()))}
 
 
